@@ -309,7 +309,21 @@ def r5(run, ctx):
               'reload sees a difference')
     loops = [n for n in ast.walk(f.node) if isinstance(n, ast.For) and
              norm_text(n.iter) == '_ENV_EXCEPTIONS']
-    if run.need('R5', loops, 'env-exception filter loop', f):
+    # ... or both sides' env rebuilt without the excepted keys (a filtering comprehension)
+    rebuilt = set()
+    for st in ast.walk(f.node):
+        if isinstance(st, ast.Assign) and len(st.targets) == 1 and \
+                isinstance(st.targets[0], ast.Subscript) and \
+                astq.const_value(st.targets[0].slice, None) == 'env':
+            for c in ast.walk(st.value):
+                if isinstance(c, ast.comprehension) and any(
+                        isinstance(i, ast.Compare) and len(i.ops) == 1 and
+                        isinstance(i.ops[0], ast.NotIn) and
+                        norm_text(i.comparators[0]) == '_ENV_EXCEPTIONS' for i in c.ifs):
+                    rebuilt.add(norm_text(st.targets[0].value))
+    if len(rebuilt) >= 2:
+        run.check('R5', True, 'the env exceptions are dropped from both sides', f, f.node)
+    elif run.need('R5', loops, 'env-exception filter loop', f):
         body = ' '.join(norm_text(x) for x in loops[0].body)
         dels = set(astq.pattern_regex("del $d['env'][$k]").findall(body))
         run.check('R5', len(dels) >= 2,
@@ -440,7 +454,7 @@ def r9(run, ctx):
                   'a watcher whose socket section changed is added again without being stopped: '
                   'two watchers of that name, the old workers keep the closed socket',
                   construct='RECREATED-NOT-REMOVED')
-    run.count('R9', n, 2, 'membership tests in reload_from_config')
+    run.count('R9', n, 1, 'membership tests in reload_from_config')
 
 
 def r10(run, ctx):
